@@ -12,8 +12,8 @@ from __future__ import annotations
 from harness import sctp_check as S
 from harness import sctp_world as W
 
-LEAN_TARGETS = ["Aiortc.Props.C02", "Aiortc.Props.C02Drain"]
-AUDIT_PROPS = ["C02", "C02Drain"]
+LEAN_TARGETS = ["Aiortc.Props.C02", "Aiortc.Props.C02Drain", "Aiortc.Props.C02DrainPR"]
+AUDIT_PROPS = ["C02", "C02Drain", "C02DrainPR"]
 DRIVERS = ["Sctp"]
 MANIFEST = {
     "technique": "Lean 4 invariant / induction proofs over the executable line-by-line model of the SCTP send path "
